@@ -42,6 +42,7 @@ ASSUMPTIONS = [
     "state merging on (kind, uid tuple) is sound because every molecule attribute is a function of uid (DESIGN.md E2)",
     "sample() is specified as a relation: any subset of the requested size; sort ties in any order",
     "per-uid reference values come from single-molecule loaders of the library itself (a one-row loader cannot mis-order rows)",
+    "added during the seeding waves: load() with negative / stepped / reversed slices, unsorted and repeating lists, generators; group.apply, binning with both compute flags, reshape, loaders accessor, per-uid orientations",
 ]
 
 TSHAPE = (20, 21, 22)
